@@ -94,6 +94,14 @@ class Ctx(object):
     def fresh_fn(self, base, *sorts):
         return z3.Function(self.fresh_name(base), *sorts)
 
+    def mention(self, term):
+        """make `term` a ground term of every later query (a trigger for E-matching): asserts MENTIONED(term) for an
+        uninterpreted predicate, which no preprocessing step removes (a defining equation of a fresh constant would be
+        solved away) and which constrains nothing"""
+        srt = term.sort()
+        f = z3.Function('mentioned_%s' % srt.name().lower(), srt, z3.BoolSort())
+        self.assume(f(term))
+
     # -- path condition
     def assume(self, f, label=None):
         if isinstance(f, bool):
